@@ -3,12 +3,12 @@
    unserviced request, a producer parked with space, or an unfinished close. *)
 From Coq Require Import List ZArith Bool Arith Lia.
 From WV Require Import Lib.Conc Model.ChanWake Proof.ChanWakeInv Proof.ChanWakeBase Proof.ChanWakeL1
-  Proof.ChanWakeL2 Proof.ChanWakeL3 Proof.ChanWakeL4 Proof.ChanWakeL5.
+  Proof.ChanWakeL2 Proof.ChanWakeL3 Proof.ChanWakeL4 Proof.ChanWakeL5 Proof.ChanWakeL6.
 Import ListNotations.
 Open Scope Z_scope.
 
 Definition Inv (c : cfg) (s : state) : Prop :=
-  Inv1 s /\ Inv2 s /\ Inv3 s /\ Inv4 c s /\ Inv5 c s.
+  Inv1 s /\ Inv2 s /\ Inv3 s /\ Inv4 c s /\ Inv5 c s /\ G6 c s.
 
 Definition runc (c : cfg) (nw : nat) (sched : list choice) : state := run (step c) (init nw) sched.
 
@@ -16,7 +16,7 @@ Lemma inv_init : forall c nw, (0 < nw)%nat -> Inv c (init nw).
 Proof.
   intros. unfold Inv.
   split; [apply inv1_init|]. split; [apply inv2_init; auto|]. split; [apply inv3_init|].
-  split; [apply inv4_init|apply inv5_init].
+  split; [apply inv4_init|]. split; [apply inv5_init|apply g6_init].
 Qed.
 
 (* the ghost flag is never reset *)
@@ -38,9 +38,9 @@ Qed.
 Lemma inv_step : forall c s ch s' l,
   0 <= hw c -> Inv c s -> step c s ch = Some (s', l) -> taint s' = false -> Inv c s'.
 Proof.
-  intros c s ch s' l Hhw (H1 & H2 & H3 & H4 & H5) H Ht. unfold Inv.
+  intros c s ch s' l Hhw (H1 & H2 & H3 & H4 & H5 & H6) H Ht. unfold Inv.
   split; [eapply inv1_step; eauto|]. split; [eapply inv2_step; eauto|]. split; [eapply inv3_step; eauto|].
-  split; [eapply inv4_step; eauto|eapply inv5_step; eauto].
+  split; [eapply inv4_step; eauto|]. split; [eapply inv5_step; eauto|eapply g6_step; eauto].
 Qed.
 
 Theorem inv_reachable : forall c nw sched,
@@ -80,7 +80,7 @@ Qed.
 Lemma quiescent_ok : forall c s,
   1 <= hw c -> Inv c s -> quiescent_parked s = true -> in_kf_class s = false -> c05_ok s = true.
 Proof.
-  intros c s Hhw (H1 & H2 & H3 & H4 & (HJw & HJr)) Hq Hkf.
+  intros c s Hhw (H1 & H2 & H3 & H4 & (HJw & HJr) & _) Hq Hkf.
   unfold quiescent_parked in Hq. destruct (io s) eqn:Eio; try discriminate.
   apply andb_true_iff in Hq. destruct Hq as [Hsel Hall]. apply negb_true_iff in Hsel.
   unfold sel_enabled in Hsel. apply orb_false_iff in Hsel. destruct Hsel as [Hsel Hrd].
@@ -159,6 +159,55 @@ Proof.
     destruct (HnoW eq_refl) as (_ & Hwc & Hcwf). rewrite Hwc, Hcwf. reflexivity.
 Qed.
 
+(* the same for quiescent states in which workers may also sit in the application *)
+Lemma quiescent_app_ok : forall c s,
+  1 <= hw c -> sb c <= hw c -> Inv c s -> quiescent_app s = true -> in_kf_class s = false -> app_ok c s = true.
+Proof.
+  intros c s Hhw Hsb (H1 & H2 & H3 & H4 & _ & H6) Hq Hkf.
+  unfold quiescent_app in Hq. destruct (io s) eqn:Eio; try discriminate.
+  apply andb_true_iff in Hq. destruct Hq as [Hsel Hall]. apply negb_true_iff in Hsel.
+  unfold sel_enabled in Hsel. apply orb_false_iff in Hsel. destruct Hsel as [Hsel Hrd].
+  apply orb_false_iff in Hsel. destruct Hsel as [Hpull Hw]. subst w.
+  unfold in_kf_class in Hkf. apply orb_false_iff in Hkf. destruct Hkf as [Htaint Hpac].
+  assert (Hact : existsb act_tot (ws s) = false /\ existsb act_wc (ws s) = false /\ existsb act_cwf (ws s) = false).
+  { repeat split; apply existsb_intro_false; intros j p Hj; pose proof (forallb_nth _ _ _ _ _ Hall Hj) as Hp;
+      destruct p; simpl in Hp; try discriminate; reflexivity. }
+  destruct Hact as (A1 & A2 & A3).
+  assert (HnoW : closed s = false -> ~ (0 < total s /\ sb c <= total s) /\ wc s = false /\ cwf s = false).
+  { intros Hc. destruct (H6 Hc) as (G1 & G2 & G3). rewrite Eio, Hpull in *. simpl in *. rewrite A1 in G1. rewrite A2 in G2. rewrite A3 in G3.
+    repeat split.
+    - intros Hx. destruct (G1 Hx) as [?|[?|?]]; discriminate.
+    - destruct (wc s); auto. destruct (G2 eq_refl) as [?|[?|?]]; discriminate.
+    - destruct (cwf s); auto. destruct (G3 eq_refl) as [?|[?|?]]; discriminate. }
+  assert (Hnp : forall j p, nth_error (ws s) j = Some p -> parked_o p = false).
+  { intros j p Hj. destruct (parked_o p) eqn:Pp; auto. exfalso.
+    pose proof (H4 _ _ Hj) as Hp4. pose proof (existsb_false_nth _ _ _ _ _ Hpac Hj) as Hnk.
+    destruct p; simpl in Pp; try discriminate; simpl in Hp4, Hnk.
+    - destruct cap; [|discriminate]. destruct Hp4 as (Hwc & Hcn). rewrite Eio in Hcn. simpl in Hcn.
+      destruct (Hcn eq_refl) as [Hcn'|Hx]; [|discriminate].
+      assert (Hc : closed s = false).
+      { destruct (closed s) eqn:E; auto. rewrite (i3_c2 _ H3 E) in Hcn'. discriminate. }
+      destruct (HnoW Hc) as (_ & Hx & _). congruence.
+    - destruct Hp4 as (Hns & Hcn). rewrite Eio in Hcn. simpl in Hcn. unfold notif_soon in Hns. rewrite Eio in Hns.
+      simpl in Hns. destruct Hcn as [Hcn'|Hx]; [|discriminate].
+      assert (Hc : closed s = false).
+      { destruct (closed s) eqn:E; auto. rewrite (i3_c2 _ H3 E) in Hcn'. discriminate. }
+      destruct (HnoW Hc) as (Hx & _ & _). destruct Hns as [Hns|[Hns|Hns]]; try discriminate. apply Hx. lia. }
+  unfold app_ok. repeat (apply andb_true_iff; split).
+  - destruct (closed s) eqn:Ec; auto. simpl.
+    destruct (HnoW eq_refl) as (Ht0 & _ & _).
+    assert (Hcn : conn s = true).
+    { destruct (conn s) eqn:E; auto. destruct (i3_c3 _ H3 E) as [Hx|Hx]; [congruence|].
+      rewrite Eio in Hx. discriminate. }
+    pose proof (i3_tot _ H3) as Htp. unfold tot_ok in Htp. rewrite Eio in Htp. specialize (Htp Hcn).
+    apply negb_true_iff. apply andb_false_iff.
+    destruct (Z.ltb_spec 0 (pend s)); auto. destruct (Z.leb_spec (sb c) (pend s)); auto.
+    exfalso. apply Ht0. lia.
+  - unfold no_producer_parked. apply forallb_intro. intros j p Hj. rewrite (Hnp _ _ Hj). reflexivity.
+  - unfold closing_closed. destruct (closed s) eqn:Ec; [apply orb_true_r|].
+    destruct (HnoW eq_refl) as (_ & Hwc & Hcwf). rewrite Hwc, Hcwf. reflexivity.
+Qed.
+
 (* ---- the theorems of C05 ------------------------------------------------------------- *)
 Theorem c05_partial : forall c nw sched,
   1 <= hw c -> (0 < nw)%nat ->
@@ -167,6 +216,17 @@ Theorem c05_partial : forall c nw sched,
   c05_ok (runc c nw sched) = true.
 Proof.
   intros c nw sched Hhw Hnw Hq Hkf. apply (quiescent_ok c); auto.
+  apply inv_reachable; auto; try lia.
+  unfold in_kf_class in Hkf. apply orb_false_iff in Hkf. tauto.
+Qed.
+
+Theorem c05_app_partial : forall c nw sched,
+  1 <= hw c -> sb c <= hw c -> (0 < nw)%nat ->
+  quiescent_app (runc c nw sched) = true ->
+  in_kf_class (runc c nw sched) = false ->
+  app_ok c (runc c nw sched) = true.
+Proof.
+  intros c nw sched Hhw Hsb Hnw Hq Hkf. apply (quiescent_app_ok c); auto.
   apply inv_reachable; auto; try lia.
   unfold in_kf_class in Hkf. apply orb_false_iff in Hkf. tauto.
 Qed.
